@@ -837,8 +837,17 @@ func checkSlotLiteral(r *Run, p *Program, rule string, f *ssa.Function, appendKe
 		fld := strings.TrimPrefix(fn, "pogreb.slot.")
 		desc := "?"
 		for _, s := range sources(st.Val) {
-			if c, idx := callResult(s); c != nil {
-				desc = fmt.Sprintf("%s#%d", calleeKey(&c.Call), idx)
+			if c, comp := valueComponent(s); c != nil {
+				desc = calleeKey(&c.Call) + comp
+				if comp == "#0" && c.Call.Signature().Results().Len() == 1 {
+					desc = calleeKey(&c.Call) + "#-1"
+				}
+				switch locKind(s, 0) {
+				case "id":
+					desc = calleeKey(&c.Call) + ":segment-id"
+				case "off":
+					desc = calleeKey(&c.Call) + ":offset"
+				}
 			} else if cv, ok := s.(*ssa.Convert); ok {
 				if c, ok := cv.X.(*ssa.Call); ok {
 					if b, ok := c.Call.Value.(*ssa.Builtin); ok && b.Name() == "len" {
@@ -850,8 +859,8 @@ func checkSlotLiteral(r *Run, p *Program, rule string, f *ssa.Function, appendKe
 		got[fld] = desc
 	})
 	want["hash"] = "(*pogreb.DB).hash#-1"
-	want["segmentID"] = appendKey + "#0"
-	want["offset"] = appendKey + "#1"
+	want["segmentID"] = appendKey + ":segment-id"
+	want["offset"] = appendKey + ":offset"
 	want["keySize"] = "len(key)"
 	want["valueSize"] = "len(value)"
 	for _, fld := range []string{"hash", "segmentID", "offset", "keySize", "valueSize"} {
@@ -893,4 +902,105 @@ func callSiteArgs(p *Program, f *ssa.Function, idx int) []ssa.Value {
 		})
 	}
 	return out
+}
+
+// staticCallersOf lists the module functions containing a static call (or defer/go) of g.
+func staticCallersOf(p *Program, g *ssa.Function) []*ssa.Function {
+	seen := map[*ssa.Function]bool{}
+	var out []*ssa.Function
+	for _, f := range p.ModuleFuncs("") {
+		instrsOf(f, func(in ssa.Instruction) {
+			if ci, ok := in.(ssa.CallInstruction); ok && ci.Common().StaticCallee() == g && !seen[f] {
+				seen[f] = true
+				out = append(out, f)
+			}
+		})
+	}
+	return out
+}
+
+// onlyUnder reports whether every static call chain into f comes from the function with key root (f itself may be root;
+// closures count as their parent; bound 3).
+func onlyUnder(p *Program, f *ssa.Function, root string, d int) bool {
+	for f.Parent() != nil {
+		f = f.Parent()
+	}
+	if funcKey(f) == root {
+		return true
+	}
+	if d > 3 {
+		return false
+	}
+	cs := staticCallersOf(p, f)
+	if len(cs) == 0 {
+		return false
+	}
+	for _, c := range cs {
+		if !onlyUnder(p, c, root, d+1) {
+			return false
+		}
+	}
+	return true
+}
+
+// ruleC01ChainLinks: a bucket chain only ever grows at its tail, and overflow buckets are released only by a split
+// (which rebuilds the whole chain): bucket.next is written only by decoding and by linking a bucket that
+// createOverflowBucket just handed out; the free list grows only under split and shrinks only in createOverflowBucket.
+// A chain that is cut or re-linked anywhere else loses every key stored behind the cut.
+func ruleC01ChainLinks(r *Run, p *Program, rule string) {
+	stores := storesToField(p, "pogreb.bucket.next")
+	r.universe(rule, len(stores), 2)
+	for _, st := range stores {
+		f := st.Parent()
+		r.fn(funcKey(f))
+		construct := funcKey(f) + ":store(bucket.next)"
+		// decoding
+		if strings.HasSuffix(funcKey(f), ".UnmarshalBinary") {
+			r.ok(rule, construct, p.Pos(st.Pos()), "bucket.next is decoded from the bucket's bytes", false)
+			continue
+		}
+		// link to a bucket that createOverflowBucket returned in this function
+		linked := false
+		for _, s := range sources(st.Val) {
+			ld, ok := strip(s).(*ssa.UnOp)
+			if !ok || ld.Op != token.MUL || fieldName(ld.X) != "pogreb.bucketHandle.offset" {
+				continue
+			}
+			fa := ld.X.(*ssa.FieldAddr)
+			if c, _ := callResult(fa.X); c != nil && calleeKey(&c.Call) == "(*pogreb.index).createOverflowBucket" {
+				linked = true
+			}
+		}
+		r.check(linked, rule, construct, p.Pos(st.Pos()),
+			"bucket.next is set to the offset of a bucket createOverflowBucket just handed out (the chain grows at its tail)",
+			"bucket.next is overwritten with something other than a freshly created overflow bucket ("+instrString(st)+"): a chain that is cut or re-linked outside a split loses every key stored behind that point (Get/Has/Items miss them while Count still includes them)")
+	}
+	// the free list
+	fl := storesToField(p, "pogreb.index.freeBucketOffs")
+	r.universe(rule+":free-list", len(fl), 3)
+	for _, st := range fl {
+		f := st.Parent()
+		r.fn(funcKey(f))
+		construct := funcKey(f) + ":store(index.freeBucketOffs)"
+		v := strip(st.Val)
+		switch x := v.(type) {
+		case *ssa.Slice:
+			// pop from the front: only in createOverflowBucket
+			r.check(funcKey(f) == "(*pogreb.index).createOverflowBucket" && isFieldLoad(x.X, "pogreb.index.freeBucketOffs"), rule, construct, p.Pos(st.Pos()),
+				"the free list shrinks only where createOverflowBucket hands the bucket out", "the free list of overflow buckets is re-sliced outside createOverflowBucket")
+			continue
+		case *ssa.Call:
+			if b, ok := x.Call.Value.(*ssa.Builtin); ok && b.Name() == "append" && len(x.Call.Args) > 0 && isFieldLoad(x.Call.Args[0], "pogreb.index.freeBucketOffs") {
+				r.check(onlyUnder(p, f, "(*pogreb.index).split", 0), rule, construct, p.Pos(st.Pos()),
+					"overflow buckets are put on the free list only under index.split, which has just emptied the whole chain they belonged to",
+					"an overflow bucket is put on the free list outside index.split ("+funcKey(f)+" is reachable from elsewhere): a bucket that may still be linked from a chain, or still link to the rest of it, is handed out again and the keys behind it are lost or mixed with another chain's")
+				continue
+			}
+		}
+		if strings.HasSuffix(funcKey(f), ".readMeta") || funcKey(f) == "pogreb.openIndex" {
+			r.ok(rule, construct, p.Pos(st.Pos()), "the free list is restored from persisted metadata", false)
+			continue
+		}
+		r.bad(rule, construct, p.Pos(st.Pos()), "unexpected store to index.freeBucketOffs ("+instrString(st)+")")
+	}
 }
